@@ -7,6 +7,10 @@ P12 == P10 \cup { <<"/", "a", "/", "NEST">>, <<"/", "OPT", "b">> }
 PCls == { <<"/", "a", "/", "CLS", "/", "a">>, <<"/", "a", "/", "CLS", "/", "b">>, <<"/", "a">>, <<"/", "a", "/", "CLB">>, <<"/", "a", "/", "CLB", "b">> }
 P8 == P6 \cup { <<"/", "a", "/", "CLS", "/", "b">>, <<"/", "a", "/", "CLS", "/", "a">> }
 P16 == P12 \cup PCls
+\* quick pool: splits, collapses, groups, a class with a parenthesis, upper-case literals (case-insensitive trees)
+PQ == { <<"/", "a">>, <<"/", "a", "/", "b">>, <<"/", "a", "/", "LOW">>, <<"/", "LOW", "/", "b">>, <<"/", "a", "AS">>,
+        <<"/", "A", "/", "LOW">>, <<"/", "A", "/", "b">>, <<"/", "a", "/", "CLS", "/", "b">> }
+PUp == P12 \cup PCls \cup { <<"/", "A", "/", "LOW">>, <<"/", "A", "/", "b">>, <<"/", "A", "LOW">> }
 
 RECURSIVE Strs(_,_)
 Strs(n, A) == IF n = 0 THEN {<<>>} ELSE LET S == Strs(n - 1, A) IN S \cup {Append(s, c) : s \in {x \in S : Len(x) = n - 1}, c \in A}
